@@ -209,6 +209,10 @@ HOF_KEY = {"sorted", "min", "max"}   # key=<function>; its results are only comp
 HOF_FIRST = {"map", "filter"}        # first positional argument; map's results are the new elements
 PURE_TYPES = {"str", "int", "float", "bytes", "bool", "complex"}  # `str.isdigit`, `int`, ... passed as functions
 
+# callables through which a function can reach objects / run code that its source does not name
+REFLECTION = {"eval", "exec", "globals", "locals", "compile", "__import__", "sys._getframe", "inspect.currentframe",
+              "inspect.stack", "importlib.import_module", "sys.modules", "builtins.eval", "builtins.exec"}
+
 JUMPS = (ast.Continue, ast.Break)
 WILD = 0  # heap label matching every label
 
@@ -257,6 +261,21 @@ def out_positions(name: str):
                 res = None
     _OUT_CACHE[name] = res
     return res
+
+
+def accepts_out(name: str) -> bool:
+    """the NumPy callable has an `out` parameter (ufuncs do; others by signature; unknown signature: assume it has)"""
+    obj = np_object(name)
+    if obj is None:
+        return True
+    import numpy
+
+    if isinstance(obj, numpy.ufunc):
+        return True
+    try:
+        return "out" in inspect.signature(obj).parameters
+    except (TypeError, ValueError):
+        return True
 
 
 class Val:
@@ -2487,6 +2506,8 @@ class Scope:
             for a in args:
                 self.stringify(a, out, stack=self._stack)
         cands = {full, shown}
+        if cands & REFLECTION or any(c.split(".")[0] in ("gc", "ctypes") for c in cands):
+            raise Unsupported(f"reflection ({shown}): the code that runs is not the code that is read")
         for c in list(cands):
             if c.startswith("numpy."):
                 cands.add("np." + c[len("numpy."):])
@@ -2511,6 +2532,8 @@ class Scope:
                 self.write(out, args[0])
                 self.store(out, args[0], WILD, union(args[2:] + list(kwargs.values())))
             return FRESH
+        if "vars" in cands and shown == "vars" and not args:
+            raise Unsupported("vars() without argument: the local namespace as an object")
         if "vars" in cands and shown == "vars" and len(args) == 1:
             a = args[0]
             return Val(a.own, a.unknown)  # the object's own attribute dictionary
@@ -2531,6 +2554,9 @@ class Scope:
         if "out" in kwargs:
             o = kwargs["out"]
             written.append(o if self.is_arr(o) else self.elem(out, o, view=True))
+        if "**" in kwargs and npname is not None and accepts_out(npname):  # `**mapping` may carry `out=`
+            self.write(out, kwargs["**"])
+            written.append(kwargs["**"])
         for c in cands:
             kw = WRITE_IF_KEYWORD.get(c)
             if kw and keyword_literal(e, kw) not in (("absent",), ("const", False)) and args:
